@@ -114,3 +114,17 @@ def value_at_exit(it, fn, expr, env, provided):
     e = dict(env)
     it.block(defining_statements(fn, names, provided), e)
     return ev.ev(expr, e)
+
+
+def need_no_new_helpers(fx, mod, fn):
+    """For the rules that compare the *shape* of `fn`: a call of a function that the reference tree does not have (and that
+    the canonicaliser could not inline, e.g. a generator or a class) hides part of the shape -- the rule cannot decide."""
+    from .. import canon
+    inv = canon.inventory().get(mod, {})
+    known = set(inv.get('functions', ())) | set(inv.get('names', ())) | set(inv.get('classes', ()))
+    tree = fx.forest.mod(mod)
+    new = {st.name for st in tree.body if isinstance(st, (ast.FunctionDef, ast.ClassDef)) and st.name not in known}
+    new |= {t.id for st in tree.body if isinstance(st, ast.Assign) for t in st.targets if isinstance(t, ast.Name) and t.id not in known}
+    used = sorted({n.id for n in ast.walk(fn) if isinstance(n, ast.Name) and n.id in new})
+    if used:
+        raise Unknown(f'{fn.name} uses {used}, which the reference tree does not have and which could not be folded into it: the shape rule cannot decide')
